@@ -32,7 +32,13 @@
  * janet_hash / janet_compare / janet_equals on KEYS are replaced by their contracts (what units val.* prove of the real
  * ones): hash an ARBITRARY function of the key (symbolic table g2_h[], so every bucket/collision/tie pattern is covered),
  * compare a total order consistent with equals.  Abstract key universe: V2_K pairwise different keys (the numbers 1..V2_K).
- * Bounded: capacity V2_CAP. */
+ * Bounded: capacity V2_CAP (and, where a unit defines V2_MAXLEN, head->length <= V2_MAXLEN).
+ *
+ * Mutants: dropping `hash = otherhash;` in the swap branch (the carried key keeps the hash of the key that displaced it) needs
+ * four keys - two with home h, two with home h+1 - and is invisible to units that build from the empty struct with 2-3 keys;
+ * here it breaks W2.  Dropping `dist = otherdist;` is an EQUIVALENT mutant on well-formed input (checked with this harness:
+ * every obligation including the canonical-layout one still holds): after the first swap the carried entry preceded every
+ * later entry of the run, so it wins every later comparison with its true distance and a fortiori with a larger stale one. */
 #include "prelude.h"
 
 #ifndef V2_CAP
@@ -140,6 +146,9 @@ void h_struct_put_step(void) {
   JanetStructHead *ha = janet_struct_head(a);
   unsigned m0;
   __CPROVER_assume(v2_wf(a, &m0));                       /* requires wf_struct(st) */
+#ifdef V2_MAXLEN
+  __CPROVER_assume(ha->length <= V2_MAXLEN);              /* optional bound on the number of entries (load factor) */
+#endif
   V2Snap o;                                               /* pre-state */
   o.length = ha->length; o.hash = ha->hash;
   for (int i = 0; i < V2_CAP; i++) { o.key[i] = a[i].key; o.value[i] = a[i].value; }
